@@ -243,6 +243,9 @@ def classify(step):
         return 'panic', step['detail']
     d = step['detail']
     if not step['reply']:
+        m = re.search(r'twin=(\S+)', d)
+        if m:
+            return 'twin', m.group(1)[:300]
         if 'pagemodel=differs' in d and 'expected=' not in d:
             return 'reply', 'pagemodel=differs'
         m = re.search(r'expected=(\S+) observed_code=(\d+)( short-read got=\d+ want=\d+ prefix=1 free=\d+ nospace=\d| data-differs at=\d+| long-read)?', d)
